@@ -25,7 +25,7 @@ CHECKS = {
                 note="Write monitor wraps zarr.Array.__setitem__; storage contract as in C01."),
     "C06": dict(cat="fault_enumeration", ref="DESIGN.md 5 (C06)",
                 text="Fault/schedule enumeration by seeded sampling: reference execution versus adversarial executions of the same program (task order permutations, failed attempts after the body wrote, backups, zombie re-executions landing after later operations, cloudpickle shipping); every stored chunk and the final results must be identical and every repeated write of a key byte-identical.",
-                note="Zombie re-execution models the thread Future.cancel() cannot stop; in-process cloudpickle round trip (fresh-interpreter variant only in thorough tier)."),
+                note="Zombie re-execution models the thread Future.cancel() cannot stop; transient storage errors land inside task bodies (the retry re-reads); in 1/8 (quick) / 1/4 (thorough) of the runs task bodies execute in fresh interpreters from their pickled form (sim/remote.py, DESIGN.md II.8), elsewhere the processes path round-trips through cloudpickle in-process."),
     "C07": dict(cat="exploration", ref="DESIGN.md 5 (C07)",
                 text="Seeded exploration of the interleavings the real async_map_dag / SingleThreadedExecutor admit under adversarial pool timing and late-landing writes; invariants on the store trace and event log (no consumer read before the final commit of a key, create-arrays first, operation barriers) and final values.",
                 note="Concurrency modelled at store-operation granularity (read instant, per-write commit instants); Zarr-internal ordering within one call not examined."),
@@ -40,10 +40,10 @@ CHECKS = {
                 note="History length <= 12 (quick) / 40 (thorough)."),
     "C11": dict(cat="exploration", ref="DESIGN.md 5 (C11)",
                 text="Seeded exploration of store/to_zarr call shapes (sources x targets x regions x eager/lazy x repeated sources x executors incl. two-phase overlap); targets are pre-filled with a sentinel and read back with plain Zarr; rejected regions must leave the target store digest unchanged.",
-                note="Sentinel-based: elements outside the region must be untouched."),
+                note="Sentinel-based: elements outside the region must be untouched; pre-histories on the same lazy source objects (computed / stored elsewhere before); a validation error is a rejection whenever it arrives."),
     "C12": dict(cat="exploration", ref="DESIGN.md 5 (C12)",
                 text="Invariant checked while each simulated run proceeds: every array write of every task has value.shape == selected region shape (write monitor), and declared shape/dtype/chunks equal the result and the backing Zarr array.",
-                note="Task writes go through zarr.Array.__setitem__."),
+                note="Task writes go through zarr.Array.__setitem__; a second phase stores a requested array lazily into an existing array of other chunking and uses the returned array."),
     "C13": dict(cat="exploration", ref="DESIGN.md 5 (C13)",
                 text="Seeded exploration over programs x executors x options; a recording Callback and the simulated pool give per-operation counts (advertised, mappable length, bodies executed, task-end notifications) and the event order, checked against the finalized plan.",
                 note="No faults and no backups in this configuration (retries/backups would legitimately add bodies)."),
